@@ -366,7 +366,9 @@ func mdUnit(c *Ctx, g *gram.Grammar, seed int64, inject bool, name string, sampl
 		return
 	}
 	bnf := fencedText(doc.md)
-	ra := c.W.RunGocc(name, []byte(doc.md), run.GoccOpts{Flags: []string{"-a"}, Ext: ".md", WorkSub: "ma"})
+	// the name only has to end in .md: dots, dashes and upper case elsewhere in it do not matter
+	base := name + []string{"", ".v2", ".bnf", "-x.y", ".MD.notes"}[r.Intn(5)]
+	ra := c.W.RunGocc(name, []byte(doc.md), run.GoccOpts{Flags: []string{"-a"}, Ext: ".md", WorkSub: "ma", SrcBase: base})
 	rb := c.W.RunGocc(name, []byte(bnf), run.GoccOpts{Flags: []string{"-a"}, WorkSub: "mb"})
 	defer os.RemoveAll(ra.OutDir)
 	defer os.RemoveAll(rb.OutDir)
